@@ -1,7 +1,7 @@
 (** C18 — an IOSpec lives exactly as long as a reference to its value.  Property theorems only.
     All statements quantify over every operation list [ops] (new_pandas / new_module / assignment /
     deletion / update_pandas / update_module / add_bases / remove_bases / close / spec.sheet= / spec.path= /
-    del_spec, plus space and cells creation) and every fuel of the C3 linearisation; [run fuel ops] is the state reached from the empty system.
+    del_spec / del model.Space, plus space and cells creation) and every fuel of the C3 linearisation; [run fuel ops] is the state reached from the empty system.
     The clause "on saving every live spec's value is written to its file and read back equal" is
     pandas/openpyxl I/O and is NOT covered here (implementation-side oracle only, harness/props/C18.py). *)
 From Coq Require Import List NArith.
@@ -65,6 +65,18 @@ Theorem C18_rejected_clean : forall fuel ops o,
   same_but_next (run fuel ops) (fst (step fuel (run fuel ops) o)).
 Proof. exact rejected_creation_clean. Qed.
 Print Assumptions C18_rejected_clean.
+
+(** deleting a space (del model.S) removes the space and exactly the references defined in it; by
+    [C18_live] / [C18_live_persist] on the state after the step, the specs that go with it are those of
+    values no other reference of the model holds *)
+Theorem C18_delspace : forall fuel ops m s,
+  is_space (run fuel ops) m s = true ->
+  snd (step fuel (run fuel ops) (DelSpace m s)) = ROk ->
+  is_space (fst (step fuel (run fuel ops) (DelSpace m s))) m s = false /\
+  (forall r, In r (st_refs (fst (step fuel (run fuel ops) (DelSpace m s)))) <->
+             In r (st_refs (run fuel ops)) /\ r_own r <> (m, Some s)).
+Proof. exact delspace_forgets. Qed.
+Print Assumptions C18_delspace.
 
 (** two specs never claim the same file location; two specs in one file are in an excel file under
     distinct non-empty sheets *)
